@@ -20,6 +20,7 @@ type worker struct {
 	out    *bufio.Reader
 	stderr *tailBuf
 	lines  chan []byte
+	calls  int
 }
 
 type tailBuf struct {
